@@ -624,7 +624,8 @@ def run(tier, seed, replay=None):
         elif k == 'fit':
             run_fit(ctx, drv, [{kk: replay[kk] for kk in ('kind', 'family', 'N', 'points', 'sub')}])
         elif k == 'opd':
-            run_opd(ctx, [{kk: replay[kk] for kk in ('kind', 'sample', 'field', 'family', 'N', 'rings')}])
+            run_opd(ctx, [{kk: replay[kk] for kk in ('kind', 'sample', 'field', 'family', 'N', 'rings', 'stopdown')
+                           if kk in replay}])
         else:
             print('unknown replay case', replay)
             return 2
